@@ -461,8 +461,8 @@ def chunk(payload):
 
 
 RULES = {
-    "C06": "histories of valid edit calls (all add/delete/change variants incl. named and list forms) generated against the reference model from four base LPs (incl. empty); after every step (long histories: every 12th) the full problem is dumped through the query API and compared with the reference model as exact rationals; `long` histories grow past 100 rows/100 cols/1000 nz and shrink to empty; non-trivial = history with >=1 edit; distinct = hash(script)",
-    "C05": "histories: blocks of 1-5 random valid edits (each followed by a probe of every solution accessor) then a solve by one of {QSexact_solver primal/dual, mpq_QSopt_primal, mpq_QSopt_dual}, optionally after loading a random basis or a copy round-trip; the same solve is run on a freshly built copy of the current LP and both are compared with each other and with the certified reference; non-trivial = history with a compared re-solve after a previous solve, or an accessor that still answered after an edit; distinct = hash(script)",
+    "C06": "histories of valid edit calls (all add/delete/change variants incl. named and list forms) generated against the reference model from four base LPs (incl. empty); after every step (long histories: every 12th) the full problem is dumped through the query API and compared with the reference model as exact rationals; `long` histories grow past 100 rows/100 cols/1000 nz and shrink to empty; `matgrow` histories append a column and a row listing it first at every step (free space of the column store walked through every residue; mixed NULL/explicit/default-looking names in list adds); ranges of non-range rows must read 0; non-trivial = history with >=1 edit; distinct = hash(script)",
+    "C05": "histories: blocks of 1-5 random valid edits (each followed by a probe of every solution accessor) then a solve by one of {QSexact_solver primal/dual, mpq_QSopt_primal, mpq_QSopt_dual}, optionally after loading a random basis or a copy round-trip; streams: rand, pattern (incl. a range row capping the objective that is re-typed after the solve), warm (only factorization-preserving edits between rational-simplex solves, extra free/duplicate/empty columns), basisload (load random/all-slack/file basis, then delete rows/columns), filewarm (problem read from an MPS file, then warm edits); the same solve is run on a freshly built copy of the current LP and both are compared with each other and with the certified reference; non-trivial = history with a compared re-solve after a previous solve, or an accessor that still answered after an edit; distinct = hash(script)",
 }
 
 
